@@ -52,6 +52,9 @@ type sqlEngine struct {
 	failAt  int // fail the statement with this number (-1: none)
 	nextTx  int
 	problem string
+	// the statement text (canonical tokens) and bound arguments of the last List-shaped select (the one with
+	// "is not null"), for the comparison with the model's rendering of whereBuilder (coq/model/SqlWhere.v)
+	lastList string
 }
 
 func newSQLEngine() *sqlEngine {
@@ -517,6 +520,9 @@ func (e *sqlEngine) query(c *sqlConn, q string, args []driver.Value) (driver.Row
 		cols = append(cols, strings.Trim(strings.TrimSpace(c), "`"))
 	}
 	tail := reTail.FindStringSubmatch(m[3])
+	if strings.Contains(strings.ToLower(m[3]), "is not null") {
+		e.lastList = canonStmt(tail, args)
+	}
 	ac := &argCursor{args: args}
 	pred, err := parseCond(tail[1], ac)
 	if err != nil {
@@ -572,4 +578,47 @@ func (e *sqlEngine) query(c *sqlConn, q string, args []driver.Value) (driver.Row
 		res[i] = cp
 	}
 	return &sqlRows{cols: cols, rows: res}, nil
+}
+
+// canonStmt renders a select's condition, tail and arguments as tokens: ( ) and or eq:<field> nn:<field>, then
+// ob:<field>:<dir> lim off, then the arguments with their alphabetic prefix (wf, f) removed.
+func canonStmt(tail []string, args []driver.Value) string {
+	cond := strings.NewReplacer("(", " ( ", ")", " ) ").Replace(tail[1])
+	w := strings.Fields(cond)
+	var toks []string
+	for i := 0; i < len(w); i++ {
+		x := w[i]
+		switch {
+		case x == "(" || x == ")":
+			toks = append(toks, x)
+		case strings.EqualFold(x, "and") || strings.EqualFold(x, "or"):
+			toks = append(toks, strings.ToLower(x))
+		case strings.HasSuffix(x, "=?"):
+			toks = append(toks, "eq:"+strings.Trim(strings.TrimSuffix(x, "=?"), "`"))
+		case i+3 < len(w) && strings.EqualFold(w[i+1], "is") && strings.EqualFold(w[i+2], "not") && strings.EqualFold(w[i+3], "null"):
+			toks = append(toks, "nn:"+strings.Trim(x, "`"))
+			i += 3
+		default:
+			toks = append(toks, "?"+x)
+		}
+	}
+	var tl []string
+	if tail[2] != "" {
+		tl = append(tl, "ob:"+tail[2]+":"+strings.ToLower(tail[3]))
+	}
+	if tail[4] != "" {
+		tl = append(tl, "lim"+strings.TrimPrefix(tail[4], "?"))
+	}
+	if tail[5] != "" {
+		tl = append(tl, "off"+strings.TrimPrefix(tail[5], "?"))
+	}
+	var as []string
+	for _, a := range args {
+		v := fmt.Sprint(a)
+		if b, ok := a.([]byte); ok {
+			v = string(b)
+		}
+		as = append(as, strings.TrimLeft(v, "abcdefghijklmnopqrstuvwxyz"))
+	}
+	return strings.Join(toks, ",") + "|" + strings.Join(tl, ",") + "|" + strings.Join(as, ",")
 }
